@@ -66,13 +66,32 @@ def run (c : Cfg) (t : T) : List Ev → Option T
 
 def init (s0 : Nat) : T := { st := s0 }
 
+/-- the table row of state `q` (all-zero row for an unknown id) -/
+def stOf (m : Machine) (q : Nat) : St := (m.stateOf q).getD ⟨0, "", 0, 0, false, 0, 0, 0⟩
+
 /-- configuration read off a generated machine -/
 def cfgOf (m : Machine) : Cfg :=
-  { timeoutOf := fun q => match m.stateOf q with | some s => s.timeoutMs | none => 0,
-    hasFunc := fun q => match m.stateOf q with | some s => s.timeoutFunc | none => false }
+  { timeoutOf := fun q => (stOf m q).timeoutMs, hasFunc := fun q => (stOf m q).timeoutFunc }
 
-/-- does entering `q` arm a timer (used by the driver) -/
+/-- does entering `q` arm a timer (closed form; `GV.Props.C14.arms_eq_model` proves it equal to
+    the model run) -/
 def arms (m : Machine) (q : Nat) (entryInitial : Bool) : Bool :=
-  !entryInitial && (match m.stateOf q with | some s => s.timeoutFunc || s.timeoutMs > 0 | none => false)
+  !entryInitial && ((stOf m q).timeoutFunc || decide ((stOf m q).timeoutMs > 0))
+
+/-- the states visited along a path of the machine -/
+def statesAlong (m : Machine) (q : Nat) : List Sym → List Nat
+  | [] => []
+  | a :: rest => match m.step q a with
+    | some q' => q' :: statesAlong m q' rest
+    | none => []
+
+/-- what a TimeoutFunc is taken to return in the model run (its largest value) -/
+def funcValue (m : Machine) (q : Nat) : Nat := (stOf m q).tfMaxMs
+
+/-- timer model run: start-up setState, then one setState per transition of the path -/
+def timerAfter (m : Machine) (path : List Sym) : Option T :=
+  run (cfgOf m) (init m.init)
+    (Ev.setState m.init (funcValue m m.init) ::
+      (statesAlong m m.init path).map (fun q => Ev.setState q (funcValue m q)))
 
 end GV.Timeout
